@@ -13,9 +13,12 @@
     view_is_innermost, view_fixed_at_open, view_push, view_root, view_disabled, lastOf_eq_lookup,
     exit_restores, frame_block_restores, moved_frame_carries_view, isolation_step, isolation, interleave_polls,
     erased_storage_identity, erased_roundtrip, wrappers_transparent, existing_wrappers_transparent,
-    default_open_push_not_transparent, program_balanced, program_view_is_innermost, tasks_balanced, no_trace
+    default_open_push_not_transparent, trait_default_is_viaDefault, view_push_default,
+    default_push_agrees_off_collisions, option_some_transparent, option_none_inert, parts_is_identity,
+    traceparent_ctxt_transparent, program_balanced, program_view_is_innermost, tasks_balanced, no_trace
 -/
 import EmitModel.Lemmas.Ctxt
+import EmitModel.Model.Traceparent
 namespace EmitModel.C03
 open EmitModel.Ctxt
 variable {V : Type}
@@ -329,6 +332,75 @@ theorem existing_wrappers_transparent (kind : Kind) (cur : Option (List (String 
 theorem default_open_push_not_transparent :
     openVia (⟨.traitDefault, .forward⟩ : Wrapper) .push (some [("a", 1)]) [("a", 2)] = some [("a", 1)] ∧
     openFrame .push (some [("a", 1)]) [("a", 2)] = some [("a", 2)] := by decide
+
+/-- **trait_default_is_viaDefault** (G9a). A `Ctxt` that implements only the required methods — `open_push` and
+    `open_disabled` left to the trait defaults — opens, for every `Frame` constructor, exactly the frame the
+    machine opens for the kind and props `viaDefault` names. The driver runs the `defpush` variants through
+    `viaDefault`; every machine-level theorem of this file is stated for all kinds, so it covers them. -/
+theorem trait_default_is_viaDefault (kind : Kind) (cur : Option (List (String × V))) (ps : List (String × V)) :
+    openVia (⟨.traitDefault, .traitDefault⟩ : Wrapper) kind cur ps =
+      openFrame (viaDefault kind ps).1 cur (viaDefault kind ps).2 := by
+  cases kind <;> simp [openVia, pushVia, viaDefault, openFrame]
+
+/-- What the default `open_push` shows: `props.and_props(current)` enumerates the own pairs first and the ambient
+    ones after them, and `ThreadLocalCtxt::open_root` keeps the LAST pair per key — so on a key that is both
+    pushed and ambient the AMBIENT value is seen (the override `ThreadLocalCtxt::open_push` shows the pushed one,
+    `view_push`). -/
+theorem view_push_default (cur : Option (List (String × V))) (ps : List (String × V)) (k : String) :
+    ((openFrame .pushDefault cur ps).map (get · k)) = some ((lastOf (cur.getD []) k).or (lastOf ps k)) := by
+  have : ∀ (a b : List (String × V)), lastOf (a ++ b) k = (lastOf b k).or (lastOf a k) := by
+    intro a b
+    induction a with
+    | nil => simp [lastOf]
+    | cons x a ih =>
+      obtain ⟨k', v⟩ := x
+      simp only [List.cons_append, lastOf, ih]
+      cases lastOf b k <;> simp
+  simp [openFrame, get_insertAll, this, Ctxt.get]
+
+/-- On every key that is not BOTH pushed and ambient the default push and the override agree (for ambient maps
+    with one pair per key, which is what the machine holds: `hc`). -/
+theorem default_push_agrees_off_collisions (cur : Option (List (String × V))) (ps : List (String × V)) (k : String)
+    (hc : lastOf (cur.getD []) k = get (cur.getD []) k)
+    (h : lastOf ps k = none ∨ get (cur.getD []) k = none) :
+    (openFrame .pushDefault cur ps).map (get · k) = (openFrame .push cur ps).map (get · k) := by
+  rw [view_push_default, view_push, hc]
+  rcases h with h | h <;> simp [h]
+
+/-- **option_ctxt** (G19). `Some(c)` is transparent: the same observations as `c` itself. -/
+theorem option_some_transparent (s : St V) (evs : List (Ev V)) :
+    observationsOpt true s evs = observations s evs := by
+  induction evs generalizing s with
+  | nil => rfl
+  | cons e es ih => simp only [observationsOpt, observations, outputOpt, stepOpt, if_true, ih]
+
+/-- `None`: whatever the program does — any events, in any order, well-nested or not — the state never changes
+    and every `with_current` sees no properties at all. -/
+theorem option_none_inert (s : St V) (evs : List (Ev V)) :
+    observationsOpt false s evs =
+      (evs.filter fun | .observe _ _ => true | _ => false).map (fun _ => []) := by
+  induction evs generalizing s with
+  | nil => rfl
+  | cons e es ih =>
+    cases e <;> simp [observationsOpt, outputOpt, stepOpt, ih]
+
+/-- `Frame::into_parts` + `Frame::from_parts` (+ `inner`, `inner_mut`) on a frame that is not entered: no event,
+    no change of scoping state — the rebuilt frame is the frame. -/
+theorem parts_is_identity (t f c : Nat) (σ : List (Nat × FSt)) (h : lookupF σ f = some (.idle c)) :
+    compile (V := V) t σ (.parts f) = some ([], σ) := by
+  simp [compile, h]
+
+/-- **traceparent_ctxt_transparent** — `TraceparentCtxt<C>` for frames whose props carry no `span_id`:
+    `incoming_traceparent` yields no slot, whatever the sampler, mask, and active traceparent; with nothing
+    active, `open_push` then carries nothing (`slot.or_else(get_active_traceparent)` = `None`), the frame is
+    inactive, `enter`/`exit` leave the thread's active traceparent alone, and `with_current` synthesises no
+    ids — all that is left is the wrapped context's own behaviour (the C03 machine). -/
+theorem traceparent_ctxt_transparent (c : Traceparent.Cfg) (useSampler : Bool) (st : Option Traceparent.Active)
+    (traceId : Option Traceparent.Id) (mask : Traceparent.Mask) (calls : Nat) :
+    Traceparent.incoming c useSampler st traceId none mask calls = (none, calls, []) ∧
+    (Traceparent.Frm.swap ⟨false, none⟩ st = (⟨false, none⟩, st)) ∧
+    Traceparent.ambientIds none = Traceparent.Ids.empty := by
+  simp [Traceparent.incoming, Traceparent.Frm.swap, Traceparent.ambientIds]
 
 /-- **program_balanced.** Every well-scoped program (`compileL … = some`; frames used via guard, `with`, `call`,
     `in_fn` on another thread, `in_future` polled in any scripted interleaving on any threads, panics unwinding
